@@ -131,4 +131,41 @@ theorem exV_tw (a b : Nat) : TurnWf exV a b := by
     simp
   exact ⟨Or.inr (by unfold periodic; simp [exV, exMesh]), by rw [h]; exact lower_e, by rw [h]; decide⟩
 
+/-- `exSP` with one invalid cell (a masked field; periodic along `a`) -/
+def exSM : Fld := { exSP with valid := ⟨[4, 3, 5], fun i => decide (i ≠ [1, 1, 2])⟩ }
+
+theorem exSM_wf : MeshWf exSM :=
+  ⟨exSP_wf.pmax_len, exSP_wf.n_len, exSP_wf.dims, exSP_wf.units_len, exSP_wf.pos, exSP_wf.bc_lower, exSP_wf.bc_ok,
+   exSP_wf.data_shape⟩
+
+theorem exSM_tw01 : TurnWf exSM 0 1 := ⟨exSP_tw01.turns, exSP_tw01.bc_lower, exSP_tw01.bc_ok⟩
+
+theorem exSM_tw02 : TurnWf exSM 0 2 := ⟨exSP_tw02.turns, exSP_tw02.bc_lower, exSP_tw02.bc_ok⟩
+
+/-- `exV` with two invalid cells -/
+def exVM : Fld := { exV with valid := ⟨[4, 3, 5], fun i => decide (i ≠ [0, 0, 0] ∧ i ≠ [2, 1, 3])⟩ }
+
+theorem exVM_wf : MeshWf exVM :=
+  ⟨exV_wf.pmax_len, exV_wf.n_len, exV_wf.dims, exV_wf.units_len, exV_wf.pos, exV_wf.bc_lower, exV_wf.bc_ok,
+   exV_wf.data_shape⟩
+
+theorem exVM_tw (a b : Nat) : TurnWf exVM a b := ⟨(exV_tw a b).turns, (exV_tw a b).bc_lower, (exV_tw a b).bc_ok⟩
+
+/-- `exV` with its components stored in another order (`g_k = f_{π k}`, `π = 2,0,1`), relabelled
+`u,v,w`, the mapping carried along: `u→b, v→c, w→a` -/
+def exVp : Fld :=
+  { exV with
+    data := ⟨[4, 3, 5], fun i => [(exV.data.get i).getD 2 0, (exV.data.get i).getD 0 0, (exV.data.get i).getD 1 0]⟩,
+    vdims := some ["u", "v", "w"], vmap := [("u", "b"), ("v", "c"), ("w", "a")] }
+
+def exπ : Nat → Nat
+  | 0 => 2
+  | 1 => 0
+  | _ => 1
+
+def exπ' : Nat → Nat
+  | 2 => 0
+  | 0 => 1
+  | _ => 2
+
 end DFV.C05
